@@ -101,6 +101,9 @@ class Case:
             elif op == "touch":
                 with open(os.path.join(self.paths[arg], f"t{len(self.log)}"), "w"):
                     pass
+            elif op == "mkdirs":
+                # a directory-creation burst: the reader will want to add watches while it parses this batch
+                os.makedirs(os.path.join(self.paths[arg], f"d{len(self.log)}", "x", "y"))
             elif op == "sleep":
                 time.sleep(arg)
 
@@ -227,7 +230,9 @@ def hold_case(ins: Instr, led, kind, point, nth, partner, with_event):
     if not closer_role:
         hold = ins.add_hold(Hold(role, qn, line, nth=nth, timeout=6.0))
     c.call("start")
-    if with_event:
+    if with_event == "mkdirs":
+        c.call("mkdirs", "p2")
+    elif with_event:
         c.call("touch", "p2")
     reached = False
     if closer_role:
